@@ -684,7 +684,7 @@ pub fn run_cmp(thorough: bool, seed: u64, threads: usize, prop_cases: u32) -> (C
                 let mut runner = TestRunner::new_with_rng(cfg, TestRng::from_seed(RngAlgorithm::ChaCha, &sb));
                 let st = std::cell::RefCell::new(CmpStats::default());
                 let failed = std::cell::Cell::new(false);
-                let res = runner.run(strat, |c| match run_cmp_case(&c) {
+                let res = runner.run(strat, |c| match { crate::watch::tick(); run_cmp_case(&c) } {
                     Ok(f) => {
                         if !failed.get() {
                             st.borrow_mut().note(&c, f);
